@@ -337,8 +337,51 @@ def rule_copy_faithful(ctx: Ctx) -> None:
         raise AnalysisError("copy.faithful: no copy method found")
 
 
+def rule_group_label_classes(ctx: Ctx) -> None:
+    """group.label-classes: group_one_qubit_gates folds every node indexed under the label "one-qubit" into a OneQubitGateWrapper (the
+    node is removed, its class appended to the wrapper's gate list), and the wrapper's constructor accepts only subclasses of
+    OneQubitOperationBase.  So every operation class that gives itself the label "one-qubit" has to be such a subclass — or the grouping
+    loop has to test the class before it removes the node.  Otherwise grouping a circuit that contains the operation removes it and then
+    fails in the wrapper's constructor, leaving the circuit without that operation."""
+    repo = ctx.repo
+    OPSF = "graphiq/circuit/ops.py"
+    om = repo.module(OPSF)
+    classes = {c.name: c for c in om.tree.body if isinstance(c, ast.ClassDef)}
+
+    def is_one_qubit(name, seen=()):
+        if name == "OneQubitOperationBase":
+            return True
+        c = classes.get(name)
+        if c is None or name in seen:
+            return False
+        return any(is_one_qubit(norm(b).split(".")[-1], seen + (name,)) for b in c.bases)
+    g = repo.anchor(DAG, "CircuitDAG.group_one_qubit_gates")
+    guarded = any(isinstance(c, ast.Call) and call_name(c) in ("isinstance", "issubclass") and len(c.args) == 2 and "OneQubitOperationBase" in norm(c.args[1])
+                  for c in ast.walk(g))
+    n = 0
+    for cname, c in classes.items():
+        init = next((f for f in c.body if isinstance(f, ast.FunctionDef) and f.name == "__init__"), None)
+        if init is None:
+            continue
+        adds = [x for x in calls_in(init) if call_attr(x) == "add_labels" and x.args and any(isinstance(k, ast.Constant) and k.value == "one-qubit" for k in ast.walk(x.args[0]))]
+        for a in adds:
+            n += 1
+            ctx.touch(om, init)
+            if is_one_qubit(cname) or guarded:
+                ctx.ok("group.label-classes", om, a, what=f"{cname}: labelled one-qubit and accepted by the wrapper")
+            else:
+                ctx.fail("group.label-classes", om, a,
+                         f"{cname} labels itself \"one-qubit\" but is not a OneQubitOperationBase: group_one_qubit_gates removes every node under that label and "
+                         f"puts its class into a OneQubitGateWrapper, whose constructor asserts issubclass(op_class, OneQubitOperationBase) — grouping a circuit "
+                         f"that contains a {cname} removes the node and then raises, so the circuit has lost the operation",
+                         func=f"{cname}.__init__", construct=f"{cname}: label one-qubit on a class the grouping wrapper rejects")
+    if n == 0:
+        raise AnalysisError("group.label-classes: no class adds the label one-qubit")
+
+
 def run(ctx: Ctx) -> None:
     rule_group_run_closed(ctx)
+    rule_group_label_classes(ctx)
     rule_copy_faithful(ctx)
     from ..rules import placement as _placement
     _placement.rule_noise_placement(ctx)
@@ -577,6 +620,7 @@ def rule_unwrap_source(ctx: Ctx) -> None:
 
 
 KNOCKOUTS = [
+    Knockout("two-qubit-base-labelled-one-qubit", "graphiq/circuit/ops.py", sub_nth('        self.add_labels("two-qubit")', '        self.add_labels("one-qubit")', 0), "group.label-classes", "is not a OneQubitOperationBase"),
     Knockout("remove-identity-strips-theta-zero-rotations", "graphiq/circuit/circuit_dag.py", sub_once('                if isinstance(self.dag.nodes[node]["op"].noise, NoNoise):\n                    self.remove_op(node)\n', '                if isinstance(self.dag.nodes[node]["op"].noise, NoNoise):\n                    self.remove_op(node)\n        for node in self.get_node_by_labels(["one-qubit"]):\n            op = self.dag.nodes[node]["op"]\n            if isinstance(op, ops.ParameterizedOneQubitRotation) and op.params[0] == 0 and isinstance(op.noise, NoNoise):\n                self.remove_op(node)\n'), "identity.scope", "phase gate"),
     Knockout("copy-rederives-op-params", "graphiq/circuit/circuit_base.py", sub_once("        return copy.deepcopy(self)\n", "        new_circuit = copy.deepcopy(self)\n        for op in new_circuit.sequence():\n            op.params = new_circuit._parameters.get(new_circuit._map.get(id(op)), tuple())\n        return new_circuit\n"), "copy.faithful", "operations of the copy"),
     Knockout("copy-is-shallow", "graphiq/circuit/circuit_base.py", sub_once("        return copy.deepcopy(self)\n", "        return copy.copy(self)\n"), "copy.faithful", "deep-copies"),
